@@ -187,6 +187,15 @@ def r1_r2(ctx):
         ncv = none_case_value(facts, cb)
         ups = dict(clo[2])
         if ncv is None:
+            # a filter over the answered records that involves their distance but is not exactly the membership test
+            cprov = Prov(cb, facts)
+            mentions = any(x[0] == "call" and short(x[1]).endswith("Key::log2_distance") for x in walk(cprov.local(0))) or \
+                any(callee_matches(ct, r"Key::<.*>::log2_distance$", r"Key::log2_distance$") for _, ct in cb.calls())
+            uses_requested = "distances_requested" in ups or any("request_body.distances" in fmt_short(v) for v in ups.values())
+            if mentions and uses_requested:
+                r1.fail("retain|predicate-not-exact", "the distance filter keeps a record on a condition other than exactly `requested distances contain its log2 distance "
+                        "(the responder's own record counting as 0)`: %s. Whatever else it drops is counted by the length comparison that follows, and the responder is banned "
+                        "for records it was asked for" % fmt_short(cprov.local(0))[:200], loc=cb.loc(cb.line))
             continue
         l2d, some_v, none_v = ncv
         # closure parameters: peer_key from the responder id, distances from the request
@@ -195,7 +204,9 @@ def r1_r2(ctx):
         dr = ups.get("distances_requested")
         dr_ok = dr is not None and fmt_short(dr).endswith("request_body.distances") and "self.active_requests" in fmt_short(dr)
         l2_ok = fmt_short(l2d).startswith("Key::log2_distance(peer_key, ") and "Enr::node_id(" in fmt_short(l2d)
-        some_ok = is_contains(some_v, lambda x: x[0] == "param")
+        # the distance tested: the inner closure's parameter (`.map(|d| ..)`) or the Some payload of log2_distance itself (`match`)
+        some_ok = is_contains(some_v, lambda x: x[0] == "param" or (x[0] == "field" and x[1][0] == "as" and x[1][2] == "Some" and
+                                                                      any(y[0] == "call" and short(y[1]).endswith("Key::log2_distance") for y in walk(x[1][1]))))
         if some_ok:
             lookup_retains.append((bi, t, cb, none_v, pk_ok, dr_ok, l2_ok))
     if not lookup_retains:
